@@ -93,6 +93,26 @@ BULK_MC = [dict(name="bulk", tiers=["quick", "thorough", "dev"], consts=BULK_CON
 BULK_GEN = [dict(name="bulk", tiers=["quick", "thorough", "dev"], consts=BULK_CONSTS, harness=[BULK_HARNESS], shards=8, rej_sample=0)]
 
 
+TOK_RESET = dict(name="Reset", u="none", k="none", id=0, res="ok")
+TOK_FORMULAS = {
+    "C04": dict(invariants=["C04_TokConservation"], properties=[], p_properties=[]),
+    "C05": dict(invariants=["C05_TokOnePlace", "C05_TokNoEmptyBatch"], properties=["C05_TokImmutable", "C05_TokCancelExact"],
+                p_properties=["P_C05_TokImmutable", "P_C05_TokCancelExact"]),
+    "C06": dict(invariants=[], properties=["C06_TokReleaseOnlyWhenProven"], p_properties=["P_C06_TokReleaseOnlyWhenProven"]),
+}
+TOK_CONSTS = dict(User=["u1"], Token=["x", "y"], MaxTx=3, MaxBatch=2, MaxFx=1, MaxExt=1, MaxEv=2, InitBal=4, KB=1)
+TOK_CONSTS_T = dict(User=["u1", "u2"], Token=["x", "y"], MaxTx=3, MaxBatch=3, MaxFx=2, MaxExt=2, MaxEv=2, InitBal=4, KB=1)
+
+
+def tok_harness(c):
+    return dict(chain="eth", Token="FX", User=c["User"], MaxTx=c["MaxTx"], MaxBatch=c["MaxBatch"], MaxCall=0, MaxEv=c["MaxEv"], InitBal=c["InitBal"], KB=c["KB"], KC=1)
+
+
+TOK_MC = [dict(name="tok", tiers=["quick", "dev"], consts=TOK_CONSTS), dict(name="tokT", tiers=["thorough"], consts=TOK_CONSTS_T)]
+TOK_GEN = [dict(name="tok", tiers=["quick", "dev"], consts=TOK_CONSTS, harness=[tok_harness(TOK_CONSTS)], shards=8, rej_sample=2),
+           dict(name="tokT", tiers=["thorough"], consts=TOK_CONSTS_T, harness=[tok_harness(TOK_CONSTS_T)], shards=16, rej_sample=0)]
+
+
 def outgoing(pid):
     def run(work, args):
         kw = dict(pid=pid, module="Outgoing", mcmodule="OutgoingMC", pkg="outgoing", formulas=FORMULAS[pid],
@@ -107,7 +127,12 @@ def outgoing(pid):
         bkw = dict(pid=pid, module="OutgoingBulk", mcmodule="OutgoingBulkMC", pkg="outgoing", formulas=BULK_FORMULAS.get(pid),
                    mc_cfgs=BULK_MC, gen_cfgs=BULK_GEN, reset_op=BULK_RESET, level_note="", design_ref="5/C04-C05", assumptions=[],
                    test="TestReplayBulk", test_path="TestPathBulk")
+        tkw = dict(pid=pid, module="OutgoingTok", mcmodule="OutgoingTokMC", pkg="outgoing", formulas=TOK_FORMULAS[pid],
+                   mc_cfgs=TOK_MC, gen_cfgs=TOK_GEN, reset_op=TOK_RESET, level_note="", design_ref="5/C04-C06", assumptions=[],
+                   test="TestReplayTok", test_path="TestPathTok")
         if rp:
+            if rmod == "OutgoingTok":
+                return graph_property(work, args, **tkw)
             if rmod == "Attest":
                 return graph_property(work, args, **akw)
             if rmod == "OutgoingBulk":
@@ -127,7 +152,13 @@ def outgoing(pid):
             rc2, ev2, viol2, dev2 = graph_property(work, args, write=False, **bkw)
             extra = ["the batch size limit (more than 100 pending transfers) is checked on the counting specification OutgoingBulk.tla"]
         ev = specs.merge_evidence(ev1, ev2)
-        return specs.finish(work, pid, ev, ASSUMPTIONS + extra, viol2, dev1 + dev2)
+        if viol2:
+            return specs.finish(work, pid, ev, ASSUMPTIONS + extra, viol2, dev1 + dev2)
+        # everything that must hold PER TOKEN (two tokens in one bridge module): OutgoingTok.tla
+        rc3, ev3, viol3, dev3 = graph_property(work, args, write=False, **tkw)
+        extra.append("per-token clauses (batch selection, cancellation of older batches, timeouts, conservation with two tokens in one module) are checked on OutgoingTok.tla")
+        ev = specs.merge_evidence(ev, ev3)
+        return specs.finish(work, pid, ev, ASSUMPTIONS + extra, viol3, dev1 + dev2 + dev3)
     return run
 
 
